@@ -78,7 +78,7 @@ def search(acc: Acc, tier, shard, nshards):
     def body(data):
         ch = model.Ch(data.draw)
         st_ = {}
-        doc = model.Gen(ch, prof, st_).document()
+        doc = model.any_document(model.Gen(ch, prof, st_))
         a = render.render(doc).text
         sst = {}
         toks = render.tokens(doc, render.Surface(ch, stats=sst))
